@@ -3,8 +3,8 @@
     IpblProofs.v, LoadFileProofs.v, ControlTheorems.v.  The models are those of the C with
     fixes/C16-finddomain-bound.diff, fixes/C16-ipbl-validate-first.diff and
     fixes/C16-loadint-strict.diff applied. *)
-From Qv Require Import Common.Bytes Gen.GenControl Model.FindDomain Model.MatchNet Model.LoadFile Spec.ControlSpec
-  Proofs.FindDomainProofs Proofs.MatchNetProofs Proofs.IpblProofs Proofs.LoadFileProofs Proofs.ControlTheorems.
+From Qv Require Import Common.Bytes Gen.GenControl Model.FindDomain Model.MatchNet Model.LoadFile Model.LoadListArr Spec.ControlSpec
+  Proofs.FindDomainProofs Proofs.MatchNetProofs Proofs.IpblProofs Proofs.LoadFileProofs Proofs.LoadListArrProofs Proofs.ControlTheorems.
 
 (** ---- rcpthosts-style lists: lib/control.c:finddomain ----
     For every list content and every query name (a C string): the lookup reads
@@ -136,6 +136,103 @@ Theorem C16_loadlist : forall content,
   loadlist content = Ok (match list_spec content with None => LErr | Some es => LOk es end).
 Proof. exact loadlist_correct. Qed.
 Print Assumptions C16_loadlist.
+
+(** ---- lloadfilefd in its other modes, for every file content (the file is read into
+    a buffer of its size + 1; sizes are [nat], the C uses size_t: contents below 2^31
+    octets are far inside both) ----
+    mode 0 (vpopbounce): the content itself. *)
+Theorem C16_lloadfile_raw : forall content,
+  lloadfile 0 content = Ok (LOk (length content, content)).
+Proof. exact lloadfile_raw. Qed.
+Print Assumptions C16_lloadfile_raw.
+
+(** mode 1 (tlsserverciphers, one-line files): never an error; the buffer is the
+    non-empty lines after removal of comments, blanks kept, each followed by one NUL
+    ([cat]); the returned length is the length of that buffer (0 and no buffer when
+    there is no such line); every line in it is non-empty and NUL-free *)
+Theorem C16_lloadfile_mode1 : forall content,
+  lloadfile 1 content = Ok (LOk (length (cat (plain_lines content)), cat (plain_lines content)))
+  /\ Forall (fun e => e <> [] /\ Forall (fun b => b <> 0%N) e) (plain_lines content).
+Proof. exact lloadfile1_correct. Qed.
+Print Assumptions C16_lloadfile_mode1.
+
+(** mode 2 (blank rule, no compaction): EINVAL exactly when [list_spec] rejects; 0 and no
+    buffer when there is no entry; otherwise a buffer of the size of the file whose
+    non-empty NUL-separated strings are exactly the entries of [list_spec] *)
+Theorem C16_lloadfile_mode2 : forall content,
+  match list_spec content with
+  | None => lloadfile 2 content = Ok LErr
+  | Some [] => lloadfile 2 content = Ok (LOk (0, []))
+  | Some es => exists img, lloadfile 2 content = Ok (LOk (length content, img)) /\
+                           length img = length content /\ pieces img = es
+  end.
+Proof. exact lloadfile2_correct. Qed.
+Print Assumptions C16_lloadfile_mode2.
+
+(** mode 3 (lists, numbers): EINVAL exactly when [list_spec] rejects, else the entries each followed by one NUL *)
+Theorem C16_lloadfile_mode3 : forall content,
+  lloadfile 3 content =
+    Ok (match list_spec content with None => LErr | Some es => LOk (length (cat es), cat es) end)
+  /\ (forall es, list_spec content = Some es -> Forall (fun e => e <> [] /\ Forall (fun b => b <> 0%N) e) es).
+Proof. exact lloadfile3. Qed.
+Print Assumptions C16_lloadfile_mode3.
+
+(** ---- one-line files: loadonelinerfd (me, helohost, msgidhost, localiphost, outgoingip, the
+    nomail reject text) ----  no non-empty non-comment line: "not there" (ENOENT); exactly
+    one: that line with its comment cut off -- blanks and tabs are NOT stripped, a
+    trailing blank stays part of the value; a second such line: EINVAL.  Never a crash. *)
+Theorem C16_loadoneliner : forall content,
+  loadoneliner content =
+  Ok (match oneliner_spec content with
+      | OneNone => LOk None
+      | OneLine l => LOk (Some l)
+      | OneError => LErr
+      end).
+Proof. exact loadoneliner_correct. Qed.
+Print Assumptions C16_loadoneliner.
+
+(** ---- the literal array model (Model/LoadListArr.v): compact_buffer's in-place moves,
+    loadlistfd's counting loop with a check callback, data_array and the pointer loop ----
+    compact_buffer on a block whose region [0, oldlen) can be walked (one more byte
+    behind it, or the region ends in NUL) and that is at most oldlen + 1 long: no
+    access outside the block, result = the non-empty NUL-separated strings of the
+    region, each followed by one NUL, in order. *)
+Theorem C16_compact_buffer : forall a oldlen,
+  walkable oldlen a -> length a <= oldlen + 1 ->
+  compact_buffer a oldlen = Ok (length (cat (pieces (firstn oldlen a))), cat (pieces (firstn oldlen a))).
+Proof. exact compact_buffer_spec. Qed.
+Print Assumptions C16_compact_buffer.
+
+(** loadlistfd for EVERY check callback [cf] (cf = NULL is [fun _ => false]), every content of the
+    freshly allocated bytes ([fill]) and every file content: EINVAL iff [list_spec] rejects;
+    NULL when no entry is left; otherwise a block made of the pointer table
+    (8 * (n + 1) bytes), directly behind it the entries accepted by the callback, in
+    order, each followed by one NUL and adjacent to the next, then n spare bytes;
+    pointer i addresses entry i and the table ends with NULL.  Rejected entries are
+    gone completely, accepted ones are untouched.  No access outside a block anywhere
+    (the model returns a value, not [Crash]). *)
+Theorem C16_loadlist_arr : forall (cf : bytes -> bool) (fill : nat -> N) content,
+  match list_spec content with
+  | None => loadlist_arr cf fill content = Ok LErr
+  | Some es =>
+      match filter (fun e => negb (cf e)) es with
+      | [] => loadlist_arr cf fill content = Ok (LOk None)
+      | kept => exists b, loadlist_arr cf fill content = Ok (LOk (Some b)) /\ list_block kept b
+      end
+  end.
+Proof. exact loadlist_arr_correct. Qed.
+Print Assumptions C16_loadlist_arr.
+
+(** what a caller reads through the table of such a block: exactly the entries; every
+    pointer lies behind the table and inside the block, every string is NUL-terminated
+    inside the block *)
+Theorem C16_list_block_read : forall es b,
+  Forall (fun e => e <> [] /\ Forall (fun x => x <> 0%N) e) es -> list_block es b ->
+  exists offs, read_ptrs (mem b) (ptrs b) = Ok (combine offs es) /\ length offs = length es /\
+    Forall2 (fun p e => (length es + 1) * PTR_SIZE <= p /\ p + length e < length (mem b) /\
+                        sub (mem b) p (length e + 1) = e ++ [0%N]) offs es.
+Proof. exact list_block_read. Qed.
+Print Assumptions C16_list_block_read.
 
 (** reading aids for [line_entry], the per-line part of [list_spec] *)
 Theorem C16_line_entry_cases :
